@@ -697,6 +697,15 @@ func (e *pathEngine) atomKey(c Val, pol bool) (atomKeyT, bool, bool) {
 	if _, isBin := r.V.(*ssa.BinOp); isBin {
 		return atomKeyT{}, false, false
 	}
+	// v, ok := x.(T): two tests of the same value instance against the same type agree
+	if ex, ok := r.V.(*ssa.Extract); ok && ex.Index == 1 {
+		if ta, ok := ex.Tuple.(*ssa.TypeAssert); ok && ta.CommaOk {
+			if k, ok := inst(e.resolve(Val{ta.X, r.F, r.E})); ok {
+				k.kind = "is:" + ta.AssertedType.String()
+				return k, pol, true
+			}
+		}
+	}
 	if k, ok := inst(r); ok {
 		k.kind = "bool"
 		return k, pol, true
